@@ -804,7 +804,9 @@ func TestC12(t *testing.T) {
 		"non-trivial = at least one configuration refresh and one lookup/auction whose answer is checked against the last good configuration, or a stress scenario")
 	col.Note(fmt.Sprintf("malformed contents rejected by blockrelay.UnmarshalJSON: %v (of %d)", malformedNames, len(malformedContents)))
 	col.Note("fetch outcome Nil (obtainExecutionConfig returning nil,nil) is modelled but cannot be driven: it needs a dynamic source and no public keys, which the accounts check excludes")
-	rng := NewRand(Seed())
+	// common.NewRand(seed) streams for consecutive seeds are shifts of one another (the state is
+	// seed*golden+c and advances by golden): derive the stream from a hashed seed instead
+	rng := NewRand(NewRand(Seed()).U64())
 	n := EnvInt("VERIF_N", 400)
 	search := os.Getenv("VERIF_SEARCH") == "1"
 
